@@ -48,6 +48,7 @@ TABLE = [
     ("InfoAction", G % "info_action", GS % "info_action", 1, 6, []),
     ("Constitution", G % "constitution", GS % "constitution", 2, None, [("req", "anchor"), ("null", "script_hash")]),
     ("UnitInterval", "lib.rs", "serialization/general.rs", 2, None, [("req", "numerator"), ("req", "denominator")], "seq![Tok::Tag(30)]"),
+    ("ExUnitPrices", "protocol_types/plutus/ex_unit_prices.rs", "serialization/plutus/ex_unit_prices.rs", 2, None, [("req", "mem_price"), ("req", "step_price")]),
     ("BootstrapWitness", "protocol_types/witnesses/bootstrap_witness.rs", "serialization/witnesses/bootstrap_witness.rs", 4, None, [("req", "vkey"), ("req", "signature"), ("bytes", "chain_code"), ("bytes", "attributes")]),
 ]
 KNOWN = set("u8 u16 u32 u64 usize bool Option Vec String".split())
@@ -64,7 +65,7 @@ def field_types(ty, tfile):
 toml = ['''# GENERATED by tools/gen_records.py from a table transcribed from the Conway CDDL - do not edit by hand
 unit = "ser_records"
 properties = ["C03", "C01"]
-prelude = ["../_common/base.rs", "../_common/cbor_model.rs", "prelude.rs", "opaque.rs"]
+prelude = ["../_common/usize64.rs", "../_common/base.rs", "../_common/cbor_model.rs", "prelude.rs", "opaque.rs"]
 lemmas = ["spec.rs"]
 
 [[type]]
@@ -152,11 +153,101 @@ sig_subst = [ { rule = "R-inherent", from = "fn serialize_as_embedded_group", to
 ensures = ["r is Ok", "final(serializer).toks() == old(serializer).toks() + %s_enc(*self).skip(1)"]
 tail = "if r_tail_ is Ok { assert(serializer.toks() =~= old(serializer).toks() + %s_enc(*self).skip(1)); }"
 ''' % (sfile, ty, ty, ty, ty, ty))
+
+# ---- homogeneous collections: [* x] arrays over a Vec, { k => v } maps over an ordered entry sequence -------------------------------
+# (type, type file, serializer file, kind, field, type-level substitution or None)
+COLLS = [
+    ("Relays", "protocol_types/certificates/pool_registration.rs", "serialization/certificates/pool_registration.rs", "array", "0", None),
+    ("RewardAddresses", "lib.rs", "serialization/general.rs", "array", "0", None),
+    ("GenesisHashes", "lib.rs", "serialization/general.rs", "array", "0", None),
+    ("ScriptHashes", "lib.rs", "serialization/general.rs", "array", "0", None),
+    ("Languages", "protocol_types/plutus/languages.rs", "serialization/plutus/languages.rs", "array", "0", None),
+    ("AssetNames", "lib.rs", "serialization/general.rs", "array", "0", None),
+    ("Vkeys", "protocol_types/crypto/vkeys.rs", "serialization/crypto/vkeys.rs", "array", "0", None),
+    ("CostModel", "protocol_types/plutus/cost_model.rs", "serialization/plutus/cost_model.rs", "array", "0", None),
+    ("Withdrawals", "lib.rs", "serialization/general.rs", "map", "0", ("R-lhm", "LinkedHashMap<RewardAddress, Coin>", "Vec<(RewardAddress, Coin)>")),
+    ("TreasuryWithdrawals", "protocol_types/governance/proposals/treasury_withdrawals.rs", "serialization/governance/proposals/treasury_withdrawals.rs", "map", "0", ("R-btree", "BTreeMap<RewardAddress, Coin>", "Vec<(RewardAddress, Coin)>")),
+    ("ProposedProtocolParameterUpdates", "lib.rs", "serialization/general.rs", "map", "0", ("R-lhm", "LinkedHashMap<GenesisHash, ProtocolParamUpdate>", "Vec<(GenesisHash, ProtocolParamUpdate)>")),
+]
+spec.append('''
+pub open spec fn flat<T: Ser>(s: Seq<T>) -> Seq<Tok> decreases s.len() { if s.len() == 0 { Seq::empty() } else { flat(s.drop_last()) + s.last().enc() } }
+pub proof fn lemma_flat_step<T: Ser>(s: Seq<T>, i: int) requires 0 <= i < s.len() ensures flat(s.take(i + 1)) == flat(s.take(i)) + s[i].enc()
+{ assert(s.take(i + 1).drop_last() =~= s.take(i)); }
+pub open spec fn flat2<K: Ser, V: Ser>(s: Seq<(K, V)>) -> Seq<Tok> decreases s.len() { if s.len() == 0 { Seq::empty() } else { flat2(s.drop_last()) + s.last().0.enc() + s.last().1.enc() } }
+pub proof fn lemma_flat2_step<K: Ser, V: Ser>(s: Seq<(K, V)>, i: int) requires 0 <= i < s.len() ensures flat2(s.take(i + 1)) == flat2(s.take(i)) + s[i].0.enc() + s[i].1.enc()
+{ assert(s.take(i + 1).drop_last() =~= s.take(i)); }
+''')
+for (ty, tfile, sfile, kind, field, sub) in COLLS:
+    ssrc = src(tfile)
+    m = re.search(r"pub struct %s\s*\(([^;]*)\);" % ty, ssrc, re.S)
+    for ident in re.findall(r"[A-Za-z_]\w*", (sub[2] if sub else (m.group(1) if m else ""))):
+        if ident not in KNOWN and ident not in ("pub", "crate", "std", "collections", "BTreeMap", "LinkedHashMap"):
+            opaque.add(ident)
+    t = '[[type]]\nsource = "rust/src/%s"\nname = "%s"\n' % (tfile, ty)
+    if sub:
+        t += 'subst = [ { rule = "%s", from = "%s", to = "%s" } ]\n' % sub
+    toml.append(t)
+    s_ = src(sfile)
+    impl_hdr = "impl cbor_event::se::Serialize for %s" % ty
+    if not re.search(re.escape(impl_hdr) + r"\b", s_):
+        impl_hdr = "impl Serialize for %s" % ty
+    if kind == "array":
+        spec.append("pub open spec fn %s_enc(x: %s) -> Seq<Tok> { seq![Tok::Arr(x.%s@.len() as u64)] + flat(x.%s@) }\n" % (ty, ty, field, field))
+        inv = "serializer.toks() =~= t0.push(Tok::Arr(self.%s@.len() as u64)) + flat(self.%s@.take(it.index@ as int))" % (field, field)
+        step = "lemma_flat_step(self.%s@, it.index@ as int);" % field
+    else:
+        spec.append("pub open spec fn %s_enc(x: %s) -> Seq<Tok> { seq![Tok::Map(x.%s@.len() as u64)] + flat2(x.%s@) }\n" % (ty, ty, field, field))
+        inv = "serializer.toks() =~= t0.push(Tok::Map(self.%s@.len() as u64)) + flat2(self.%s@.take(it.index@ as int))" % (field, field)
+        step = "lemma_flat2_step(self.%s@, it.index@ as int);" % field
+    toml.append('''[[fn]]
+source = "rust/src/%s"
+impl = "%s"
+emit_impl = "impl Ser for %s"
+name = "serialize"
+id = "%s::serialize"
+rewrites = ["serret"]
+impl_pre = \'\'\'
+    open spec fn enc(&self) -> Seq<Tok> { %s_enc(*self) }
+\'\'\'
+head_raw = "let ghost t0 = serializer.toks();"
+tail = "if r_tail_ is Ok { assert(self.%s@.take(self.%s@.len() as int) =~= self.%s@); assert(serializer.toks() =~= old(serializer).toks() + %s_enc(*self)); assert(self.enc() =~= %s_enc(*self)); }"
+[[fn.loop]]
+index = 0
+ghost = "it"
+invariant = ["%s", "it.index@ <= self.%s@.len()"]
+body_head = "assert(it.index@ < self.%s@.len()); %s"
+''' % (sfile, impl_hdr, ty, ty, ty, field, field, field, ty, ty, inv, field, field, step))
+
+# ---- leaves: one token ------------------------------------------------------------------------------------------------------------
+LEAVES = [
+    ("Ipv4", "lib.rs", "serialization/general.rs", "seq![Tok::Bytes(x.0@)]"),                 # ipv4 = bytes .size 4
+    ("Ipv6", "lib.rs", "serialization/general.rs", "seq![Tok::Bytes(x.0@)]"),                 # ipv6 = bytes .size 16
+    ("DNSRecordAorAAAA", "lib.rs", "serialization/general.rs", "seq![Tok::Text(x.0@)]"),      # dns_name = tstr .size (0..128)
+    ("DNSRecordSRV", "lib.rs", "serialization/general.rs", "seq![Tok::Text(x.0@)]"),
+    ("URL", "lib.rs", "serialization/general.rs", "seq![Tok::Text(x.0@)]"),                   # url = tstr .size (0..128)
+    ("AssetName", "lib.rs", "serialization/general.rs", "seq![Tok::Bytes(x.0@)]"),            # asset_name = bytes .size (0..32)
+]
+for (ty, tfile, sfile, e) in LEAVES:
+    toml.append('[[type]]\nsource = "rust/src/%s"\nname = "%s"\n' % (tfile, ty))
+    spec.append("pub open spec fn %s_enc(x: %s) -> Seq<Tok> { %s }\n" % (ty, ty, e))
+    toml.append('''[[fn]]
+source = "rust/src/%s"
+impl = "impl cbor_event::se::Serialize for %s"
+emit_impl = "impl Ser for %s"
+name = "serialize"
+id = "%s::serialize"
+rewrites = ["serret"]
+impl_pre = \'\'\'
+    open spec fn enc(&self) -> Seq<Tok> { %s_enc(*self) }
+\'\'\'
+tail = "if r_tail_ is Ok { assert(serializer.toks() =~= old(serializer).toks() + %s_enc(*self)); assert(self.enc() =~= %s_enc(*self)); }"
+''' % (sfile, ty, ty, ty, ty, ty, ty))
+
 toml.append(open(os.path.join(D, "contracts/ser_records/custom.toml")).read())
 spec.append(open(os.path.join(D, "contracts/ser_records/custom_spec.rs")).read())
-own = set(t[0] for t in TABLE) | set(re.findall(r'(?m)^name = "(\w+)"', open(os.path.join(D, "contracts/ser_records/custom.toml")).read()))
+own = set(t[0] for t in TABLE) | set(c[0] for c in COLLS) | set(l[0] for l in LEAVES) | set(re.findall(r'(?m)^name = "(\w+)"', open(os.path.join(D, "contracts/ser_records/custom.toml")).read()))
 opaque -= own
-opaque -= {"Coin", "Epoch", "Port", "BigNum", "TransactionIndex", "GovernanceActionIndex", "Ed25519KeyHash", "ScriptHash"}
+opaque -= {"Coin", "Epoch", "Port", "BigNum", "TransactionIndex", "GovernanceActionIndex", "Ed25519KeyHash", "ScriptHash", "SubCoin", "PlutusData"}
 open(os.path.join(D, "contracts/ser_records/unit.toml"), "w").write("\n".join(toml))
 open(os.path.join(D, "contracts/ser_records/spec.rs"), "w").write("".join(spec))
 open(os.path.join(D, "contracts/ser_records/opaque.rs"), "w").write(
